@@ -1,3 +1,4 @@
 -- Property files of work group I1 (import UF.Props.Cxx lines go here).
 import UF.Props.C11Compose
 import UF.Props.C01Compose
+import UF.Props.C02Compose
